@@ -228,6 +228,9 @@ func (e *Env) RandomCall() Call {
 		return e.InsertMany(ns, docs, g.P(50))
 	case r < 34:
 		u, afs := e.UpdateArg()
+		if afs == nil && g.P(12) {
+			return e.UpdateByID(ns, g.ID(), u)
+		}
 		return e.Update(ns, g.P(50), e.FilterArg(), u, g.P(15), afs)
 	case r < 40:
 		return e.ReplaceOne(ns, e.FilterArg(), e.Doc(g.P(50)), g.P(20))
@@ -272,6 +275,13 @@ func (e *Env) RandomCall() Call {
 	case r < 79:
 		return e.Distinct(ns, g.PickS("a", "b", "a.b", "_id"), e.FilterArg())
 	case r < 89:
+		if g.P(20) {
+			specs := []IndexSpec{e.IndexArg(), e.IndexArg()}
+			if g.P(40) {
+				specs = append(specs, e.IndexArg())
+			}
+			return e.CreateIndexes(ns, specs)
+		}
 		return e.CreateIndex(ns, e.IndexArg())
 	case r < 92:
 		if g.P(30) {
